@@ -26,7 +26,11 @@ func Harness_C03_routes() {
 	pre := &x509.Certificate{Raw: vBytes("precert", 2), RawTBSCertificate: leafTBS}
 	fin := &x509.Certificate{Raw: vBytes("final", 2), RawTBSCertificate: vBytes("final-tbs", 2)}
 	issuer := &x509.Certificate{Raw: []byte{1}, RawSubjectPublicKeyInfo: vBytes("issuer-spki", 2)}
-	pi := &x509.Certificate{Raw: []byte{2}, RawSubjectPublicKeyInfo: vBytes("preissuer-spki", 2), ExtKeyUsage: []x509.ExtKeyUsage{x509.ExtKeyUsageCertificateTransparency}}
+	// the pre-issuer carries the CT EKU, alone or next to another one, in either order
+	pi := &x509.Certificate{Raw: []byte{2}, RawSubjectPublicKeyInfo: vBytes("preissuer-spki", 2), ExtKeyUsage: [][]x509.ExtKeyUsage{
+		{x509.ExtKeyUsageCertificateTransparency},
+		{x509.ExtKeyUsageServerAuth, x509.ExtKeyUsageCertificateTransparency},
+		{x509.ExtKeyUsageCertificateTransparency, x509.ExtKeyUsageOCSPSigning}}[vChoice("preissuer-ekus", 3)]}
 	x509.VerifCtlBuildTBS = func(tbs []byte, p *x509.Certificate) ([]byte, error) {
 		vAssert(bytes.Equal(tbs, leafTBS), "the precertificate's own TBS is transformed")
 		if preIssuer {
